@@ -11,7 +11,9 @@ import json, os, shutil, subprocess, sys
 src, name, prop, *checks = sys.argv[1:]
 checks = checks or [prop]
 ROOT = "/verif"
-env = dict(os.environ, PYTHONPATH="/repo/src", PYTHONDONTWRITEBYTECODE="1")
+# SEED_EVAL_REPO: evaluate in a scratch worktree instead of /repo itself (checks then import y0 through PYTHONPATH)
+REPO = os.environ.get("SEED_EVAL_REPO", "/repo")
+env = dict(os.environ, PYTHONPATH=f"{REPO}/src", PYTHONDONTWRITEBYTECODE="1")
 
 
 def sh(cmd, **kw):
@@ -23,12 +25,12 @@ def demo():
     return r.returncode, (r.stdout + r.stderr)[-600:]
 
 
-assert not sh("git -C /repo status --porcelain --untracked-files=no").stdout.strip(), "repo dirty"
+assert not sh(f"git -C {REPO} status --porcelain --untracked-files=no").stdout.strip(), "repo dirty"
 meta = {"property": prop, "seed": name, "ran": []}
 rc0, out0 = demo()
 meta["demo_clean_rc"] = rc0
 patch = os.path.abspath(os.path.join(src, "patch.diff"))
-r = sh(f"git -C /repo apply {patch}")
+r = sh(f"git -C {REPO} apply {patch}")
 if r.returncode:
     print("patch does not apply:", r.stderr)
     sys.exit(2)
@@ -36,17 +38,17 @@ try:
     rc1, out1 = demo()
     meta["demo_patched_rc"] = rc1
     meta["demo_patched_tail"] = out1[-300:]
-    b = sh(f"{ROOT}/tools/baseline.py /repo")
+    b = sh(f"{ROOT}/tools/baseline.py {REPO}")
     meta["baseline_with_patch"] = b.stdout.strip().splitlines()[-1] if b.stdout.strip() else b.stderr[-200:]
     meta["baseline_ok"] = b.returncode == 0
     for c in checks:
         tier = os.environ.get("VERIF_TIER", "quick")
-        r = sh(f"cd {ROOT} && ./vcheck {c} --tier {tier}")
+        r = sh(f"cd {ROOT} && PYTHONPATH={REPO}/src ./vcheck {c} --tier {tier}")
         lines = [l for l in r.stdout.splitlines() if l.startswith("VIOLATION") or l.startswith("[")]
         meta["ran"].append({"check": c, "tier": tier, "rc": r.returncode, "detected": r.returncode == 1 and any(l.startswith("VIOLATION") for l in lines), "first_lines": lines[:3]})
 finally:
-    sh("git -C /repo checkout -- .")
-    sh("git -C /repo clean -fdq -- src")
+    sh(f"git -C {REPO} checkout -- .")
+    sh(f"git -C {REPO} clean -fdq -- src")
 meta["confirmed"] = bool(rc0 == 0 and meta["demo_patched_rc"] != 0 and meta["baseline_ok"])
 dst = os.path.join(ROOT, "seeded", name)
 os.makedirs(dst, exist_ok=True)
